@@ -36,7 +36,7 @@ def cases(run: Run):
             e = rng.choice([0.0, 0.01, 0.05, 0.2, 0.5, 0.7, rng.uniform(0, 0.7)])
             if a * (1 - e) > RE + 150:
                 break
-        kind = rng.choice(["any", "any", "long-half", "short", "long"])
+        kind = rng.choice(["any", "any", "long-half", "short", "long", "nearly-full"])
         nu1 = rng.uniform(0, 2 * math.pi)
         tf = rng.uniform(0.02, 0.98)
         if kind == "long-half":
@@ -47,6 +47,13 @@ def cases(run: Run):
             tf = rng.uniform(0.02, 0.45)
         elif kind == "long":
             tf = rng.uniform(0.55, 0.98)
+        elif kind == "nearly-full":
+            # nearly a whole revolution of an eccentric orbit, leaving shortly after perigee: the time-of-flight curve of the universal variable is
+            # steep here and its next branch (one more revolution) is close by
+            if a * (1 - 0.5) > RE + 150:
+                e = rng.uniform(0.5, min(0.72, 1 - (RE + 150) / a))
+            nu1 = rng.uniform(math.radians(5), math.radians(95))
+            tf = rng.uniform(0.88, 0.98)
         out.append({"op": "arc", "a": a, "e": e, "i": rng.choice([0.0, 0.4, 1.1, math.pi / 2, 2.4, rng.uniform(0, math.pi)]), "O": rng.uniform(0, 2 * math.pi),
                     "w": rng.uniform(0, 2 * math.pi), "nu": nu1, "tf": tf, "kind": kind,
                     # the solvers take the gravitational parameter of the central body: Earth mostly, now and then the Moon, Mars, Venus, Uranus
